@@ -3,6 +3,7 @@ package main
 // Calls: builtins, conversions, closures, library models, contracted callees, havoc.
 
 import (
+	"go/token"
 	"fmt"
 	"go/ast"
 	"go/types"
@@ -55,6 +56,23 @@ func (fv *FuncVerifier) evalCall(st *State, e *ast.CallExpr) []Val {
 			for _, a := range e.Args {
 				if tgt := fv.aliasTarget(a); tgt != nil {
 					escaped = append(escaped, tgt)
+				}
+			}
+		}
+		// &p.f passed as an argument to a callee under contract: the callee works on the field through that
+		// pointer (copy-in / copy-out at the field's abstract address)
+		if fn := fv.calleeFunc(e); fn != nil && fn.Pkg() != nil && fv.eng.contracts.ByKey[fn.Pkg().Path()+"."+funcKey(fn)] != nil {
+			for _, a := range e.Args {
+				if u, ok := unparen(a).(*ast.UnaryExpr); ok && u.Op == token.AND {
+					if fx, ok := unparen(u.X).(*ast.SelectorExpr); ok {
+						if fs, ok := fv.info().Selections[fx]; ok && fs.Kind() == types.FieldVal && len(fs.Index()) == 1 {
+							if bt := fv.typeOf(fx.X); bt != nil {
+								if _, isPtr := bt.Underlying().(*types.Pointer); isPtr {
+									escaped = append(escaped, fx)
+								}
+							}
+						}
+					}
 				}
 			}
 		}
